@@ -264,6 +264,10 @@ def gen_table(g, nforms_cursor, with_root=True):
             f = rng.choice(UNIT_REF + [0x10, 0x16, 0x13, 0x13])
             attrs.append({'name': AT_SIBLING, 'form': f, 'role': 'sibling'})
             names.append(AT_SIBLING)
+        if getattr(g, 'prefer_sig8', False) and rng.random() < 0.5:
+            # a type-signature reference (directly or through DW_FORM_indirect) in about half of the abbreviations
+            attrs.append({'name': AT_TYPE, 'form': rng.choice([0x20, 0x20, 0x16]), 'role': 'ref', 'sig8': True})
+            names.append(AT_TYPE)
         for _ in range(nat):
             nm = rng.choice(KNOWN_ATS + UNKNOWN_ATS + [AT_TYPE, AT_NAME])
             if nm in names or nm == AT_SIBLING:
@@ -332,7 +336,7 @@ def gen_node(g, cfg, table, env, depth, budget, root=False):
         if a['role'] == 'sibling' and a['form'] == 0x16:
             e['indirect_to'] = rng.choice(UNIT_REF + ([0x10] if env['in_info'] else []))
         if a['role'] == 'ref' and a['form'] == 0x16:
-            e['indirect_to'] = rng.choice(UNIT_REF + [0x10])
+            e['indirect_to'] = 0x20 if a.get('sig8') else rng.choice(UNIT_REF + [0x10, 0x20])
         if a['role'] == 'base' and a['form'] == 0x16:
             e['indirect_to'] = rng.choice([0x17, 0x06, 0x0f])
         vals.append(g.operand(cfg, a['form'], e))
@@ -380,7 +384,7 @@ def unit_abs(u):
 
 def world_abs(w):
     return [w['le'], [unit_abs(u) for u in w['info']], [unit_abs(u) for u in w['types']], w['abbrev'],
-            w['str'], w['line_str'], w['str_offsets'], w['addr'], w['loclists'], w['rnglists']]
+            w['str'], w['line_str'], w['str_offsets'], w['addr'], w['loclists'], w['rnglists'], w.get('types_absent', 0)]
 
 
 def rnd_bytes(rng, n, nonzero=False):
@@ -391,7 +395,7 @@ def int_bytes(v, n, le):
     return v.to_bytes(n, 'little' if le else 'big')
 
 
-def gen_world(g, ctx, nunits_info, nunits_types, maxnodes, maxdepth=8, fanout=6):
+def gen_world(g, ctx, nunits_info, nunits_types, maxnodes, maxdepth=8, fanout=6, types_state=None, v5_type_units=0):
     rng = g.rng
     le = rng.choice([1, 0])
     w = {'le': le, 'info': [], 'types': []}
@@ -414,9 +418,11 @@ def gen_world(g, ctx, nunits_info, nunits_types, maxnodes, maxdepth=8, fanout=6)
             cfg = (le, rng.choice([0, 1]), rng.choice([0, 1]), 4)
             kind = 'types4'
         else:
-            ver = rng.choice([2, 3, 4, 5, 5])
+            ver = 5 if i < v5_type_units else rng.choice([2, 3, 4, 5, 5])
             cfg = (le, rng.choice([0, 1]), rng.choice([0, 1]), ver)
             kind = rng.choice(KINDS5) if ver == 5 else 'legacy'
+            if i < v5_type_units:
+                kind = rng.choice(['type', 'split_type'])
         if tables and rng.random() < 0.35:
             table = rng.choice(tables)        # shared abbreviation table
         else:
@@ -449,6 +455,13 @@ def gen_world(g, ctx, nunits_info, nunits_types, maxnodes, maxdepth=8, fanout=6)
             u['type_off'] = 0     # patched
         w[where].append(u)
     w['str_offsets'], w['addr'], w['loclists'], w['rnglists'] = bytes(str_offsets), bytes(addr), bytes(loclists), bytes(rnglists)
+    if v5_type_units:
+        rng.shuffle(w['info'])            # the type units sit anywhere among the other units
+    # the .debug_types section: absent (the normal DWARF 5 layout) / present but empty / present with v4 type units
+    if w['types']:
+        w['types_absent'] = 0
+    else:
+        w['types_absent'] = 1 if (types_state or rng.choice(['absent', 'empty'])) == 'absent' else 0
     # ---- .debug_abbrev: tables at arbitrary offsets, garbage in between
     encs = ctx.driver.batch([['enc_atable', table_abs(t)] for t in tables])
     sec = bytearray()
@@ -648,6 +661,14 @@ def gen(ctx):
         else:
             w = gen_world(g, ctx, ctx.rng.randint(2, 5), ctx.rng.choice([0, 0, 1, 2]), ctx.rng.choice([3, 10, 40, ctx.scale(60, 150)]))
         cases.append(('world', world_abs(w)))
+    # type-signature references: DWARF 5 type units in .debug_info, with .debug_types absent / empty / holding v4 units
+    g.prefer_sig8 = True
+    for state in ('absent', 'empty', 'tus'):
+        for _ in range(ctx.scale(6, 60)):
+            w = gen_world(g, ctx, ctx.rng.randint(2, 4), ctx.rng.randint(1, 2) if state == 'tus' else 0,
+                          ctx.rng.choice([3, 10]), types_state=state, v5_type_units=ctx.rng.randint(1, 2))
+            cases.append(('sig8_world', world_abs(w)))
+    g.prefer_sig8 = False
     return cases
 
 
@@ -693,7 +714,7 @@ def _mk_dwarfinfo(secs):
         debug_addr_sec=D('.debug_addr', addr), debug_str_offsets_sec=D('.debug_str_offsets', str_offsets),
         debug_line_str_sec=D('.debug_line_str', line_str), debug_loclists_sec=D('.debug_loclists', loclists),
         debug_rnglists_sec=D('.debug_rnglists', rnglists), debug_sup_sec=None, gnu_debugaltlink_sec=None,
-        debug_types_sec=D('.debug_types', types))
+        debug_types_sec=None if types is None else D('.debug_types', types))
 
 
 REF_FORMS = ('DW_FORM_ref1', 'DW_FORM_ref2', 'DW_FORM_ref4', 'DW_FORM_ref8', 'DW_FORM_ref', 'DW_FORM_ref_udata',
@@ -786,6 +807,29 @@ def impl_report(secs):
     return out
 
 
+def _tu_of(r):
+    """the answer get_TU_by_sig8 must give, from the answer of get_DIE_by_sig8: (in .debug_info?, unit offset)"""
+    if isinstance(r, list) and len(r) == 2 and r[0] == 'ok':
+        return ['ok', r[1][:2]]
+    return r
+
+
+def impl_sig8(secs, sig):
+    """DWARFInfo.get_DIE_by_sig8 / get_TU_by_sig8, each as the first query on a fresh object"""
+    out = []
+    try:
+        t = _mk_dwarfinfo(secs).get_DIE_by_sig8(sig)
+        out.append(['ok', [int(not hasattr(t.cu, 'tu_offset')), t.cu.cu_offset, t.offset, t.size, t.abbrev_code]])
+    except Exception as e:
+        out.append(_err(e))
+    try:
+        tu = _mk_dwarfinfo(secs).get_TU_by_sig8(sig)
+        out.append(['ok', [int(not hasattr(tu, 'tu_offset')), tu.cu_offset]])
+    except Exception as e:
+        out.append(_err(e))
+    return out
+
+
 # ------------------------------------------------------------------ classification of a disagreement
 def _first_diff(a, b, path=()):
     if type(a) != type(b) or not isinstance(a, list):
@@ -866,6 +910,13 @@ def classify(impl, spec, hint=None):
                 return '%s/entry-shape' % sec, (ir, sr)
             if len(iu[1]) != len(su[1]):
                 return '%s/entry-count%s' % (sec, sfx), (len(iu[1]), len(su[1]))
+    if len(impl) > 2 and len(spec) > 2 and impl[2] != spec[2]:
+        for ie, se in zip(impl[2], spec[2]):
+            for f, i in (('get_DIE_by_sig8', 1), ('get_TU_by_sig8', 2)):
+                if ie[i] != se[i]:
+                    e = ('-raises-' + ie[i][1]) if _is_err(ie[i]) else ''
+                    return 'sig8/%s%s' % (f, e), (ie, se)
+        return 'sig8/shape', (impl[2], spec[2])
     return 'shape', (None, None)
 
 
@@ -876,9 +927,21 @@ def evaluate(ctx, cases):
     wfs = drv.batch([['wf', w] for w in worlds])
     specs = drv.batch([['spec', w] for w in worlds])
     models = drv.batch([['model_of_world', w] for w in worlds])
-    for (kind, w), (info, types), wf, spec, model in zip(cases, secs, wfs, specs, models):
-        all_secs = [w[0], info, w[3], types, w[4], w[5], w[6], w[7], w[8], w[9]]
+    # the signatures of all type units: looked up directly as well (get_DIE_by_sig8 / get_TU_by_sig8 on a fresh object)
+    sigs_of = [[u[1][1] for u in w[1] if u[1][0] in ('type', 'split_type')] + [u[1][1] for u in w[2] if u[1][0] == 'types4']
+               for w in worlds]
+    sig_answers = iter(drv.batch([['sig8', w, sg] for w, sgs in zip(worlds, sigs_of) for sg in sgs]))
+    for (kind, w), (info, types), wf, spec, model, sigs in zip(cases, secs, wfs, specs, models, sigs_of):
+        types_absent = bool(len(w) > 10 and w[10]) and not w[2]
+        all_secs = [w[0], info, w[3], None if types_absent else types, w[4], w[5], w[6], w[7], w[8], w[9]]
         impl = impl_report(all_secs)
+        impl_s, spec_s, model_s = [], [], []
+        for sg in sigs:
+            sp, mo = next(sig_answers)
+            spec_s.append([sg, sp, _tu_of(sp)])
+            model_s.append([sg, mo, _tu_of(mo)])
+            impl_s.append([sg] + impl_sig8(all_secs, sg))
+        impl, spec, model = impl + [impl_s], spec + [spec_s], model + [model_s]
         in_domain = all(wf)
         hint = None
         if kind == 'one_form':
@@ -892,6 +955,8 @@ def evaluate(ctx, cases):
         ctx.bump('units', len(w[1]) + len(w[2]))
         ctx.bump('entries', nent if nent < 10 else ('10-49' if nent < 50 else '50+'))
         ctx.bump('wf', ''.join(str(int(x)) for x in wf))
+        ctx.bump('debug_types', 'absent' if types_absent else ('empty' if not w[2] else 'v4 units'))
+        ctx.bump('sig8_lookups', '%d%s' % (len(sigs), ' (.debug_types absent)' if types_absent and sigs else ''))
         try:
             chain = max([a[5] for part in spec for u in part if isinstance(u[1], list) for r in u[1] for a in r[0][5]] or [0])
         except Exception:
